@@ -39,7 +39,7 @@ class DataSet(SimpleNamespace):
 
 
 def gen_dataset(rng, system=None, nv=None, nq=None, natoms=None, lattice=None, data_class="power-law", components="needed",
-                static_volumes=None, energy_class="bm3"):
+                static_volumes=None, energy_class="bm3", zero_weight=False):
     system = system or str(rng.choice(laue.SYSTEMS))
     if static_volumes is None:
         static_volumes = str(rng.choice(["same", "independent", "same-count-shifted"]))
@@ -71,6 +71,8 @@ def gen_dataset(rng, system=None, nv=None, nq=None, natoms=None, lattice=None, d
     else:   # poly3, generic
         a, b = rng.uniform(-1.5, 1.5, size=(nq, np_)), rng.uniform(-2, 2, size=(nq, np_))
     weights = rng.integers(1, 13, size=nq).astype(float) if rng.random() < 0.5 else 10 ** rng.uniform(-2, 2, size=nq)
+    if zero_weight and nq >= 2:
+        weights[int(rng.integers(0, nq))] = 0.0        # a listed q-point that carries no weight (allowed: weights only have to be >= 0)
     spec = Spectrum(v0, w0, g0, a, b, weights, natoms)
     freqs = spec.omega(volumes)
     if data_class == "generic":
